@@ -122,6 +122,7 @@ type Exec struct {
 	auxVars      []*Term
 	constCache   map[*ssa.Const]Value
 	pools        map[*Cell][]Value
+	condWaiters  map[*Cell][]*gor
 	evl          *eventLogT
 	hashInjective bool
 	cacheHits    int
